@@ -15,11 +15,11 @@ from . import alg
 from .alg import ATOMS, Cond, Sx, SymBool, Unsupported
 
 
-class PathInfeasible(Exception):
+class PathInfeasible(BaseException):
     pass
 
 
-class PathLimit(Exception):
+class PathLimit(BaseException):
     pass
 
 
